@@ -5,6 +5,7 @@ import Model.Spec.Tidy
 /-
 case <id> kind=consts
 case <id> kind=tidy v=<bits> unit=<hex> iu=<hex: implementation's unit> iv=<bits: implementation's value>
+case <id> kind=seq v=<bits> units=<hexlist> iseq=<implementation's value:unit list>
 case <id> kind=hist files=<N<name>:bits:unit+… ; … | …> fk=u|nu|name|all|re-MODE|nre-MODE (MODE = prefix|exact|sub|suffix: regexp built from the literal pat) pat=<hex> ivals=<implementation's fresh values>
 case <id> kind=file lines=<U:unit:key=val+key=val | B:bits:unit+bits:unit ; …> q=<hexlist> pat=<hexlist> ivals=<implementation's values>
 -/
@@ -157,7 +158,7 @@ def handleHist (l : Line) : IO Unit := do
     | _ => true
   let fresh := "|".intercalate (files.map fun f => joinNE (f.map fun ln =>
     joinNE (ln.ms.map fun (v, u) => showValue (readerValue v u)) "+") ";")
-  IO.println s!"obs {id} shape=ok fresh={fresh}"
+  IO.println s!"obs {id} shape=ok alias=ok fresh={fresh}"
   let kept := "|".intercalate (files.map fun f => joinNE (f.map fun ln =>
     String.ofList (ln.ms.map fun (v, u) => if keepModel ln (readerValue v u) then '1' else '0')) ";")
   let after := "|".intercalate (files.map fun f => joinNE (f.map fun ln =>
@@ -173,7 +174,7 @@ def handleHist (l : Line) : IO Unit := do
       | [_, u, _, _] => some (unhex u)
       | _ => none
   let base := if iunits.all Spec.Tidy.isBase then 1 else 0
-  IO.println s!"spec {id} rep={rep} base={base}"
+  IO.println s!"spec {id} rep={rep} base={base} alias=ok"
   let skept := "|".intercalate (files.map fun f => joinNE (f.map fun ln =>
     String.ofList (ln.ms.map fun (_, u) =>
       let hit := if isRe || isNre then litMatch u || litMatch (Spec.Tidy.tidyUnit u).1
@@ -205,6 +206,18 @@ def handle (l : Line) : IO Unit := do
     let iu := unhex (l.getD "iu")
     IO.println s!"spec {id} unit={su.toHex} val={hexF sv} base={if Spec.Tidy.isBase iu then 1 else 0} idem=1"
   | "file" => handleFile l
+  | "seq" =>
+    -- a history of Tidy calls: the model and the specification are stateless
+    let v := bits (l.getD "v")
+    let us := (l.hexList? "units").getD []
+    let mseq := us.map fun u => let (tv, tu) := tidy v u; s!"{hexF tv}:{tu.toHex}"
+    IO.println s!"obs {id} seq={join mseq}"
+    let sseq := us.map fun u => let (sv, su) := Spec.Tidy.tidy v u; s!"{hexF sv}:{su.toHex}"
+    let iunits : List Bytes := ((l.getD "iseq" "-").splitOn ",").filterMap fun m =>
+      match m.splitOn ":" with
+      | [_, u] => some (unhex u)
+      | _ => none
+    IO.println s!"spec {id} seq={join sseq} base={if iunits.all Spec.Tidy.isBase then 1 else 0}"
   | "hist" => handleHist l
   | _ => pure ()
 
